@@ -165,6 +165,28 @@ HARNESSES += [
 ]
 
 
+HARNESSES += [
+    {"name": "find_earliest_deadline", "props": ["C08"], "src": "h_poll.c", "contracts": ["public.h"],
+     "includes": ["reproc.c"], "enforce": "find_earliest_deadline", "replace": ["now"],
+     "defs": {"POLL_find_earliest_deadline": None, "VERIF_NSRC": "2"}, "defs_thorough": {"VERIF_NSRC": "3"}, "unwind": 5,
+     "bounded": "number of poll sources <= 2 (quick) / 3 (thorough); loop over sources[] fully unrolled; everything else symbolic",
+     "what": "find_earliest_deadline against absolute deadlines: sources in any order, process-less sources and "
+             "sources without deadline interleaved, shared handles allowed; expiry inlined, now by contract"},
+]
+
+
+HARNESSES += [
+    {"name": "reproc_poll", "props": ["C09", "C08", "C14", "C05", "C04"], "src": "h_poll.c", "contracts": ["public.h"],
+     "includes": ["reproc.c"], "enforce": "reproc_poll", "rec": True, "replace": ["now"],
+     "defs": {"POLL_reproc_poll": None, "VERIF_NSRC": "2"}, "defs_thorough": {"VERIF_NSRC": "3"}, "unwind": 14,
+     "timeout": 1500, "timeout_thorough": 7200,
+     "bounded": "number of poll sources <= 2 (quick) / 3 (thorough); loops over sources[] and pipes[] fully unrolled; "
+                "interests, timeout, deadlines, pipe states, kernel answers symbolic",
+     "what": "reproc_poll (find_earliest_deadline, expiry, contains_valid_pipe, pipe_poll inlined; now by contract; "
+             "self-recursive call handled by --enforce-contract-rec)"},
+]
+
+
 def api(name, props, what, **kw):
     d = {"name": "reproc_" + name, "props": props, "src": "h_api.c", "contracts": ["public.h"],
          "includes": ["reproc.c"], "enforce": "reproc_" + name, "defs": {"API_" + name: None, "VERIF_MAX_BUF": "(1ul<<40)"},
@@ -201,7 +223,71 @@ for _h in HARNESSES:
 
 NOT_YET = "no check built for it yet in this round (see DESIGN.md §0 for the planned contract route)"
 
+OS_NOTE = ("Relative to the assumed OS/libc contract layer (os/os_posix.c), descriptors < 32 in the model, NDEBUG + "
+           "REPROC_MULTITHREADED configuration, sequential execution. ")
+
 PROPERTY_META = {
+    "C01": {"claimed": True, "level": "proof",
+        "text": "parse_status over the full int domain; process_wait, reproc_wait, reproc_stop enforced on a handle in any state "
+                "satisfying the representation invariant INV (so the per-call contracts compose over all call histories): exact "
+                "status, cached status returned without touching the OS, one blocking waitpid on the own child only after the "
+                "exit pipe was reported ready, reaps == 1.",
+        "note": OS_NOTE + "That the kernel closes the exit pipe exactly at child exit is assumed. Windows not covered.",
+        "design_ref": "§3 C01", "not_decided": ["Windows process_wait"]},
+    "C02": {"claimed": True, "level": "proof",
+        "text": "The library's share of stream fidelity: pipe_read/pipe_write/reproc_read/reproc_write ask the kernel exactly once, on "
+                "the right descriptor, with the caller's buffer and size, and report what the kernel said; EPIPE only when read "
+                "returned 0, sticky afterwards; setup_input delivers every byte in order (cursor checked in the write contract, loop "
+                "closed by a loop contract for any size), then closes stdin; reproc_start closes every child-side end in the parent.",
+        "note": OS_NOTE + "The kernel's pipe semantics (bytes once, in order) are assumed. Windows sockets path not covered.",
+        "design_ref": "§3 C02", "not_decided": ["pipe.windows.c"]},
+    "C04": {"claimed": True, "level": "proof",
+        "text": "process_fork, process_start (both sides of fork) and reproc_start enforced with every OS call allowed to fail with any "
+                "errno at every call (all subsets of failing calls at once): failure leaves handle NOT_STARTED, no child, no "
+                "descriptor; the returned error is the first failed call's errno or the child's report; success means a live child "
+                "with positive pid whose fate is 'executed'. The child reports the error that stopped it (checked in the _exit contract).",
+        "note": OS_NOTE + "Parent/child coupling is rely/guarantee over the assumed error-pipe law. Known finding D10 (EINTR on the "
+                "error-pipe read / reaping waitpid) is excluded and listed.",
+        "design_ref": "§3 C04"},
+    "C05": {"claimed": True, "level": "proof",
+        "text": "Descriptor ledger (bit masks) in the OS layer: close() asserts 'open and opened by the library' at every call reached "
+                "from any enforced function (no foreign close, no double close); every function's contract states the ledger after in "
+                "terms of the ledger before (pipe_init, redirect_init/destroy, setup_input, process_*, reproc_start/close/read/write/"
+                "wait/stop/destroy); CBMC's memory-leak and pointer checks are on with allocation failure injected at every malloc.",
+        "note": OS_NOTE + "Known findings D10, D15 excluded and listed.",
+        "design_ref": "§3 C05"},
+    "C06": {"claimed": True, "level": "proof",
+        "text": "kill() and waitpid() in the OS layer assert 'pid > 0, the ledger's own child, live and unreaped'; discharged from INV in "
+                "reproc_wait/terminate/kill/stop/destroy and from the process_start contract (success implies *process == child pid > 0).",
+        "note": OS_NOTE, "design_ref": "§3 C06"},
+    "C07": {"claimed": True, "level": "proof",
+        "text": "reproc_stop enforced with everything inlined down to the OS layer (three-iteration loop fully unrolled, unwinding "
+                "assertion on); a stop-sequence monitor in the kill/poll/waitpid contracts checks each OS-level step against the plan "
+                "computed from the actions by an independent specification (order, at most once, right signal, right timeout, "
+                "escalation only after the wait expired); return value: status iff reaped, ETIMEDOUT iff every wait expired, "
+                "otherwise the failed action's error.",
+        "note": OS_NOTE, "design_ref": "§3 C07"},
+    "C10": {"claimed": True, "level": "proof",
+        "text": "parse_options (effective type per stream), redirect_init per type (pipe ends and direction, parent stream or null "
+                "device, /dev/null, path opened O_RDONLY/O_WRONLY, user handle/FILE, stderr->stdout), reproc_start (parent holds a pipe "
+                "end exactly for piped streams), and the child side of process_start against the execvp launch contract: object "
+                "identity and direction of descriptors 0,1,2, not close-on-exec.",
+        "note": OS_NOTE + "Known finding D11 (child handles / library pipes numbered 0..2 clobbered by the dup2 sequence) excluded and listed.",
+        "design_ref": "§3 C10", "not_decided": ["redirect.windows.c"]},
+    "C11": {"claimed": True, "level": "proof",
+        "text": "Child side of process_fork with the close-all loop closed by a loop contract (unbounded up to the 1 Mi cap): every "
+                "descriptor below the soft limit that is not excepted is closed; pipe_init/redirect_init: everything the library "
+                "creates is close-on-exec; execvp contract: every open descriptor other than 0,1,2 and the exit handle is close-on-exec, "
+                "the exit handle is not.",
+        "note": OS_NOTE + "Sequential: descriptors opened concurrently by other threads between pipe() and fcntl(FD_CLOEXEC) are outside "
+                "the argument. Assumes no descriptor at or above the soft limit is open.",
+        "design_ref": "§3 C11", "not_decided": ["concurrent starts from several threads", "Windows inherit list"]},
+    "C12": {"claimed": True, "level": "proof",
+        "text": "Parent side of process_fork/process_start/reproc_start: signal mask, dispositions, cwd and environ equal their entry "
+                "values on every return path, under every subset of failing calls; sigaction/chdir/dup2/_exit/execvp assert 'child side "
+                "only'. Child side: empty mask and default dispositions 1..31 at execvp and at the fork-mode return.",
+        "note": OS_NOTE + "The restoring pthread_sigmask call itself is assumed to succeed (as the property allows).",
+        "design_ref": "§3 C12"},
     "C13": {
         "claimed": True, "level": "proof",
         "text": "parse_options is enforced against an independent transcription of the documented option rules "
@@ -214,6 +300,27 @@ PROPERTY_META = {
         "design_ref": "§3 C13",
         "not_decided": ["Windows front end (same options.c, but redirect.windows.c differs)"],
     },
+    "C14": {"claimed": True, "level": "proof",
+        "text": "Every API function of reproc.c is enforced on a handle in an arbitrary state satisfying the representation invariant "
+                "INV, requires INV and ensures INV: by induction no finite call sequence leaves it, and the state-dependent results "
+                "(EINVAL before start / in the fork child / on NULL, EPIPE on closed or unpiped streams, idempotent close, start on a "
+                "started handle rejected) are postconditions. CBMC's bounds, pointer, overflow, shift, division and leak checks are on "
+                "in each of these harnesses with fully symbolic parameters.",
+        "note": OS_NOTE + "reproc_poll/drain/run are covered under C08/C09/C16. Redirect types outside the enumeration are not covered for reproc_start.",
+        "design_ref": "§3 C14"},
+    "C15": {"claimed": True, "level": "proof",
+        "text": "reproc_destroy enforced with reproc_stop and everything below inlined: on a running handle the stored stop policy is "
+                "executed (monitor), nothing is closed or freed before the sequence has run as far as it can, then every parent end is "
+                "closed once and the handle freed (leak check); default policy: wait(deadline), SIGTERM only after the deadline passed, "
+                "wait(infinite) - on return the child is reaped unless a system call failed. reproc_start stores the parsed policy.",
+        "note": OS_NOTE + "The C++ destructor path is not decidable with this tool chain.",
+        "design_ref": "§3 C15", "not_decided": ["reproc++ destructor"]},
+    "C17": {"claimed": True, "level": "proof",
+        "text": "Ghost O_NONBLOCK bit per descriptor and a 'may block' flag set by every OS contract that is allowed to sleep: "
+                "redirect_init gives the parent's pipe end the requested mode and leaves the child's end blocking; with the nonblocking "
+                "option reproc_read/reproc_write leave 'may block' unchanged and map EAGAIN to REPROC_EWOULDBLOCK; setup_input switches "
+                "the pipe to nonblocking before the first byte (asserted in the write contract) for any input size.",
+        "note": OS_NOTE + "Windows not covered.", "design_ref": "§3 C17", "not_decided": ["pipe.windows.c"]},
     "C19": {"claimed": False, "reason": "reproc++ is C++11 over libstdc++; cbmc 6.11.0's C++ front end cannot parse it and rejects contract syntax; a hand translation would be a model (DESIGN §8)"},
     "C20": {"claimed": False, "reason": "the claim ranges over thread interleavings; CBMC code contracts are sequential and cannot state read frames (DESIGN §8)"},
 }
